@@ -1,0 +1,10 @@
+//go:build verif
+
+// Contracts for /verif/govc (comment-only; see /verif/DESIGN.md section 3.2).
+package util
+
+//@ func util.Union[string]
+//@   loop 1 invariant idx: -1 <= rangeindex && rangeindex < len(slices)
+//@   loop 1 invariant sub: forall x string :: contains(res, x) ==> (exists i int :: 0 <= i && i <= rangeindex && contains(slices[i], x))
+//@   loop 1 invariant sup: forall i int, x string :: {contains(slices[i], x)} 0 <= i && i <= rangeindex && contains(slices[i], x) ==> contains(res, x)
+//@   ensures C19.union2 [C19]: len(slices) == 2 ==> (forall x string :: contains(result, x) <==> contains(slices[0], x) || contains(slices[1], x))
